@@ -113,6 +113,15 @@ func C13(c *Ctx) {
 	full := c.P.ConstInt("", "RequireFullAuth")
 
 	routes := c.Routes()
+	// Setup functions that wire some route differently when e-mail authorisation is required
+	flagAware := map[*ssa.Function]bool{}
+	for _, rt := range routes {
+		for _, alt := range rt.Alts {
+			if strings.Contains(strings.Join(alt.Cond, ","), "TwoFactorEmailAuthRequired") {
+				flagAware[rt.In] = true
+			}
+		}
+	}
 	var table []string
 	n2fa := 0
 	for _, rt := range routes {
@@ -145,6 +154,20 @@ func C13(c *Ctx) {
 					hasEmail = true
 				}
 			}
+			// the authentication middleware is the outermost gate: an unauthenticated
+			// request must get the configured refusal, not the e-mail authorisation redirect
+			iMW, iEV := -1, -1
+			for i, w := range alt.Wrappers {
+				if w.Kind == "MW2" && iMW < 0 {
+					iMW = i
+				}
+				if w.Kind == "EmailVerify.Wrap" && iEV < 0 {
+					iEV = i
+				}
+			}
+			if iMW >= 0 && iEV >= 0 {
+				r.Check(iMW < iEV, "C13.route-order", FuncName(rt.In), rname+"→"+FuncName(alt.Inner)+"{"+strings.Join(alt.Cond, ",")+"}", pos, "authentication middleware wraps the e-mail authorisation gate", "the e-mail authorisation gate is outside the authentication middleware: requests from sessions that are not (fully) authenticated are answered by the redirect to the e-mail verification page (with a session flash) instead of the configured 404/401/login redirect: "+alt.String())
+			}
 			key := rname + "→" + FuncName(alt.Inner)
 			if page != "" {
 				key += "[" + page + "]"
@@ -172,8 +195,11 @@ func C13(c *Ctx) {
 			if enrol {
 				r.Check(hasFull, "C13.route", FuncName(rt.In), key+"|enrol-keys", pos, "enrolment state written only by fully authenticated sessions", "route writes enrolment session state but is not behind RequireFullAuth")
 			}
-			// e-mail authorisation on enrolment routes when required
-			if (len(sens) > 0 || enrol) && strings.Contains(strings.Join(alt.Cond, ","), "TwoFactorEmailAuthRequired=true") {
+			// e-mail authorisation on enrolment routes when required: an alternative that
+			// applies when the flag is set — explicitly, or because the route's wrapping
+			// does not depend on the flag at all
+			conds := strings.Join(alt.Cond, ",")
+			if (len(sens) > 0 || enrol) && (strings.Contains(conds, "TwoFactorEmailAuthRequired=true") || (!strings.Contains(conds, "TwoFactorEmailAuthRequired") && flagAware[rt.In])) {
 				isRemove := false
 				for _, s := range sens {
 					if v, isC := ConstStr(Arg(s, 0)); isC && v == "" {
